@@ -19,7 +19,7 @@ def validate_concurrent(ctx, binary, rounds, payload=None):
     import os
     tf = os.path.join(ctx.scratch, "kvtrace.ndjson")
     if payload is None:
-        res = ctx.run_engine(binary, "TestKVConcurrent", {"keys": KEYS_FULL, "rounds": rounds, "writer_ops": 8, "hammer_rounds": 2 if rounds < 30 else 6, "hammer_batches": 100, "out": tf}, timeout=900)
+        res = ctx.run_engine(binary, "TestKVConcurrent", {"keys": KEYS_FULL, "rounds": rounds, "writer_ops": 8, "hammer_rounds": 2 if rounds < 30 else 6, "hammer_batches": 60, "out": tf}, timeout=900)
         lines = open(tf).read().splitlines()
         rinfo = res["stats"]["rounds"]
     else:
